@@ -14,6 +14,43 @@ TRUSTED_BASE = [
     "execution only; programs whose results the documentation does not fix (long overflow, float-to-integer conversion out of range) are skipped and counted",
 ]
 
+def precedence_matrix():
+    """every ordered pair of binary operators of one operand domain, in both tree shapes, over operand triples that tell
+    the shapes apart, written with minimal parentheses: the printed value is the documented precedence / associativity"""
+    I = lambda v: ("i", v)
+    doms = [(["+", "-", "*", "/", "%"], [(I(7), I(3), I(2)), (I(9), I(4), I(5)), (I(2), I(8), I(3))]),
+            (["&&", "||"], [(("B", 1), ("B", 0), ("B", 0)), (("B", 0), ("B", 0), ("B", 1)), (("B", 1), ("B", 1), ("B", 0)), (("B", 0), ("B", 1), ("B", 1))]),
+            (["&", "|", "^"], [(("b", 1), ("b", 0), ("b", 0)), (("b", 0), ("b", 0), ("b", 1)), (("b", 1), ("b", 1), ("b", 0)), (("b", 1), ("b", 1), ("b", 1))])]
+    out = []
+    for ops, triples in doms:
+        body = []
+        for o1 in ops:
+            for o2 in ops:
+                for (a, b, c) in triples:
+                    body.append(("echo", ("bin", o2, ("bin", o1, a, b), c)))      # (a o1 b) o2 c
+                    body.append(("echo", ("bin", o1, a, ("bin", o2, b, c))))      # a o1 (b o2 c)
+        # levels against each other: comparison over arithmetic, equality over comparison, logic over equality, unary
+        if ops[0] == "+":
+            for (a, b, c) in triples:
+                for cmp_ in ("<", ">=", "==", "!="):
+                    body.append(("echo", ("bin", cmp_, ("bin", "-", a, b), ("bin", "*", b, c))))
+                    body.append(("echo", ("bin", "==", ("bin", "<", a, b), ("bin", ">", b, c))))
+                    body.append(("echo", ("bin", "||", ("bin", cmp_, a, b), ("bin", "&&", ("bin", "<", b, c), ("bin", "==", a, c)))))
+                    body.append(("echo", ("bin", "&&", ("bin", "||", ("bin", cmp_, a, b), ("bin", "<", b, c)), ("bin", "==", a, c))))
+                body.append(("echo", ("bin", "*", ("un", "-", a), b)))
+                body.append(("echo", ("un", "-", ("bin", "*", a, b))))
+                body.append(("echo", ("bin", "-", ("un", "-", a), ("un", "-", b))))
+                body.append(("echo", ("un", "!", ("bin", "<", a, b))))
+                body.append(("echo", ("bin", "||", ("un", "!", ("bin", "<", a, b)), ("bin", "<", a, b))))
+        fns = [("main", "void", [], body)]
+        lg.PAREN_MODE = "min"
+        try:
+            out.append((fns, None, lg.prog_src(fns)))
+        finally:
+            lg.PAREN_MODE = "full"
+    return out
+
+
 def run(chk):
     quick = chk.tier == "quick"
     chk.proofs()
@@ -23,9 +60,20 @@ def run(chk):
     stats = {}
     for i in range(n):
         g = lg.Gen(rng, nfuncs=rng.randint(0, 4))
-        progs.append(g.program())
+        fns = g.program()
+        if i % 2 == 1:
+            # the same tree written with only the parentheses the documented grammar requires
+            lg.PAREN_MODE = "min"
+            try:
+                progs.append((fns, None, lg.prog_src(fns)))
+            finally:
+                lg.PAREN_MODE = "full"
+            stats["minimal-parentheses rendering"] = stats.get("minimal-parentheses rendering", 0) + 1
+        else:
+            progs.append(fns)
         for k, v in g.stats.items():
             stats[k] = stats.get(k, 0) + v
+    progs += precedence_matrix()
     recs, counts = lc.differential(chk, progs, "c07")
     agree = [r for r in recs if r["verdict"] == "agree"]
     nontriv = len({r["sx"] for r in agree if (r["model"]["status"] == "err" or len(r["model"].get("lines", [])) >= 2)})
@@ -35,7 +83,9 @@ def run(chk):
                     "construct_counts": dict(sorted(stats.items())),
                     "rule": "type-directed random programs over the documented classical core (all scalar types, promotion pairs, '/', '%', comparisons, "
                             "logical/bitwise operators, casts, concatenation, arrays incl. copies, element conversions and bounds errors, if/else, ternary statement, "
-                            "while, for, postfix, chained assignment, functions with array parameters, recursion, early return, shuffled declaration order); "
+                            "while, for, postfix, chained assignment, functions with array parameters, recursion, early return, shuffled declaration order); half of the programs are written with only the "
+                            "parentheses the documented precedence and associativity require; plus a precedence matrix (every ordered pair of binary operators of one operand domain in both "
+                            "tree shapes, and the levels against each other, written with minimal parentheses); "
                             "non-trivial = agrees and prints at least two lines or ends in a runtime error; distinct by program text"})
     for r in (agree[:1] + agree[-1:]):
         chk.sample({"program": r["src"], "reference": r["model"]})
